@@ -1,3 +1,252 @@
-use crate::util::Out;
-pub fn generate(_seed: u64, _tier: &str) -> Vec<String> { vec![] }
-pub fn run(_ops: &[String], _out: &mut Out) -> Result<(), String> { Err("not implemented".into()) }
+//! C25 — a server query batch is all-or-nothing and audited exactly.
+//! Cases: one user + one database; generated batches (reads, writes, failing queries, `:N` result
+//! references) through exec / exec_mut; after every batch the oracle probes the database state and the
+//! audit endpoint: a failed batch changes nothing, a successful one appends exactly its mutating queries,
+//! in order, attributed to the submitting user.
+
+use crate::reqs::{is_mutating, Exec};
+use crate::srv::Server;
+use crate::util::{hex, url_seg, Out, Rng};
+use serde_json::Value;
+
+fn fp(tok: &str) -> String {
+    if let Some(k) = tok.strip_prefix('n') {
+        format!("InsertNodes{k}")
+    } else if tok.starts_with("x:") {
+        "Remove".into()
+    } else if tok.starts_with("ra") {
+        "RemoveAliases".into()
+    } else {
+        "InsertNodes1".into()
+    }
+}
+
+struct Probe<'a, 'b> {
+    ex: &'a mut Exec<'b>,
+}
+
+impl<'a, 'b> Probe<'a, 'b> {
+    /// (node count / alias count, audit entries) through the admin API
+    fn state(&mut self, owner: &str, db: &str) -> (String, Vec<String>) {
+        let Some(t) = self.ex.helper_admin() else { return ("no-admin".into(), vec![]) };
+        let base = format!("/api/v1/admin/db/{}/{}", url_seg(owner), url_seg(db));
+        let q = "[{\"SelectNodeCount\":{}},{\"SelectAllAliases\":{}}]";
+        let cnt = self
+            .ex
+            .srv
+            .req("POST", &format!("{base}/exec"), Some(&t), Some(q))
+            .map(|r| r.1)
+            .unwrap_or_default();
+        let state = serde_json::from_str::<Value>(&cnt)
+            .ok()
+            .map(|v| {
+                let mut aliases: Vec<String> = v[1]["elements"]
+                    .as_array()
+                    .map(|a| a.iter().map(|e| e["values"].to_string()).collect())
+                    .unwrap_or_default();
+                aliases.sort();
+                format!("nodes={} aliases={:?}", v[0]["result"], aliases)
+            })
+            .unwrap_or(cnt);
+        let au = self
+            .ex
+            .srv
+            .req("GET", &format!("{base}/audit"), Some(&t), None)
+            .map(|r| r.1)
+            .unwrap_or_default();
+        let audit: Vec<String> = serde_json::from_str::<Value>(&au)
+            .ok()
+            .and_then(|v| v.as_array().cloned())
+            .unwrap_or_default()
+            .iter()
+            .map(|r| {
+                let q = &r["query"];
+                let variant = q.as_object().and_then(|o| o.keys().next().cloned()).unwrap_or_default();
+                let f = if variant == "InsertNodes" {
+                    let inner = &q["InsertNodes"];
+                    let c = inner["count"].as_u64().unwrap_or(0);
+                    let a = inner["aliases"].as_array().map(|a| a.len() as u64).unwrap_or(0);
+                    format!("InsertNodes{}", c.max(a))
+                } else {
+                    variant
+                };
+                format!("{}:{f}", r["username"].as_str().unwrap_or("?"))
+            })
+            .collect();
+        (state, audit)
+    }
+}
+
+pub fn run(ops: &[String], out: &mut Out) -> Result<(), String> {
+    let mut server = Server::start("C25", 3600)?;
+    let mut ex = Exec::new(&mut server);
+    let mut in_case = false;
+    let mut case_text = String::new();
+    let mut nontrivial = false;
+    // token k -> user name (harness side, from the generator's own login lines)
+    let mut tok_user: std::collections::BTreeMap<String, String> = Default::default();
+    for l in ops {
+        if let Some(n) = l.strip_prefix("case ") {
+            if in_case {
+                ex.end_case();
+                out.note_case(&case_text, nontrivial);
+            }
+            in_case = true;
+            case_text.clear();
+            nontrivial = false;
+            tok_user.clear();
+            tok_user.insert("t1".into(), "admin".into());
+            out.case = n.trim().parse().unwrap_or(0);
+            ex.start_case()?;
+            out.line(l.clone(), l.clone());
+            continue;
+        }
+        let t: Vec<&str> = l.split(' ').collect();
+        if t.len() < 2 || t[0] != "req" {
+            out.line(l.clone(), "bad-op".into());
+            continue;
+        }
+        let t = &t[1..];
+        case_text.push_str(l);
+        case_text.push('\n');
+        out.count(&format!("route:{}", t[0]));
+        let is_batch = matches!(t[0], "dbexec" | "dbexecmut" | "adbexec" | "adbexecmut") && t.len() >= 5;
+        if !is_batch {
+            let tok_before = ex.next_tok;
+            let (st, line) = ex.exec(t);
+            if t[0] == "login" && st == 200 {
+                if let Some(u) = crate::reqs::name(t[1]) {
+                    tok_user.insert(format!("t{tok_before}"), u);
+                }
+            }
+            out.line(l.clone(), line);
+            continue;
+        }
+        let owner = crate::reqs::name(t[2]).unwrap_or_default();
+        let db = crate::reqs::name(t[3]).unwrap_or_default();
+        let (before, audit_before) = Probe { ex: &mut ex }.state(&owner, &db);
+        let (st, line) = ex.exec(t);
+        let (after, audit_after) = Probe { ex: &mut ex }.state(&owner, &db);
+        out.count(&format!("status:{st}"));
+        let toks: Vec<&str> = if t[4] == "-" { vec![] } else { t[4].split(',').collect() };
+        let muts: Vec<&str> = toks.iter().copied().filter(|q| is_mutating(q)).collect();
+        let site = if t[0].ends_with("mut") { "UserDb::exec_mut" } else { "UserDb::exec" };
+        if st != 200 {
+            if !muts.is_empty() && toks.iter().position(|q| is_mutating(q)) != Some(toks.len() - 1) {
+                nontrivial = true;
+            }
+            out.count("oracle:failed-batch");
+            if before != after {
+                out.violation(
+                    &format!("C25/partial-batch-visible/{site}"),
+                    "if any query of a batch fails no change of the batch is visible",
+                    &before,
+                    &after,
+                );
+            }
+            if audit_before != audit_after {
+                out.violation(
+                    &format!("C25/failed-batch-audited/{site}"),
+                    "the audit log lists only applied batches",
+                    &format!("{audit_before:?}"),
+                    &format!("{audit_after:?}"),
+                );
+            }
+        } else {
+            out.count("oracle:applied-batch");
+            let user = if t[0].starts_with('a') {
+                "admin".to_string()
+            } else {
+                tok_user.get(t[1]).cloned().unwrap_or_default()
+            };
+            let mut expect = audit_before.clone();
+            if t[0].ends_with("mut") {
+                expect.extend(muts.iter().map(|q| format!("{user}:{}", fp(q))));
+            }
+            if expect != audit_after {
+                out.violation(
+                    &format!("C25/audit-mismatch/{site}"),
+                    "audit = mutating queries of exactly the applied batches, in order, with the submitting user",
+                    &format!("{expect:?}"),
+                    &format!("{audit_after:?}"),
+                );
+            }
+            if muts.is_empty() && before != after {
+                out.violation(
+                    &format!("C25/read-batch-changed-state/{site}"),
+                    "a batch without mutating queries changes nothing",
+                    &before,
+                    &after,
+                );
+            }
+        }
+        out.line(l.clone(), line);
+    }
+    if in_case {
+        ex.end_case();
+        out.note_case(&case_text, nontrivial);
+    }
+    Ok(())
+}
+
+pub fn generate(seed: u64, tier: &str) -> Vec<String> {
+    let mut r = Rng::new(seed ^ 0x25);
+    let ncases = if tier == "thorough" { 500 } else { 40 };
+    let mut ops = Vec::new();
+    let h = |s: &str| hex(s.as_bytes());
+    let aliases = ["k1", "k2", "k3"];
+    for case in 1..=ncases {
+        ops.push(format!("case {case}"));
+        let user = "bob";
+        ops.push(format!("req auseradd t1 {} {}", h(user), h("password123")));
+        ops.push(format!("req login {} {}", h(user), h("password123")));
+        let kind = ["memory", "mapped", "file"][r.below(3)];
+        ops.push(format!("req dbadd t2 {} {} {kind}", h(user), h("db")));
+        let nb = 6 + r.below(if tier == "thorough" { 14 } else { 8 });
+        for _ in 0..nb {
+            let nq = 1 + r.below(5);
+            let mut qs: Vec<String> = Vec::new();
+            for i in 0..nq {
+                let a = aliases[r.below(3)];
+                let refr = |r: &mut Rng| -> String {
+                    match r.below(10) {
+                        0..=3 => format!("@{}", h(aliases[r.below(3)])),
+                        4..=8 if i > 0 => format!("#{}", r.below(i)),
+                        9 => format!("#{}", i + r.below(3)), // out of bounds
+                        _ => format!("@{}", h(a)),
+                    }
+                };
+                let q = match r.below(14) {
+                    0..=2 => format!("n{}", 1 + r.below(3)),
+                    3..=4 => format!("a{}", h(a)),
+                    5..=6 => format!("x:{}", refr(&mut r)),
+                    7 => format!("ra{}", h(a)),
+                    8..=9 => format!("s:{}", refr(&mut r)),
+                    10 => format!("sa:{}", refr(&mut r)),
+                    _ => "c".to_string(),
+                };
+                qs.push(q);
+            }
+            // bias: a mutation first and a query that is likely to fail last
+            if r.chance(1, 3) {
+                qs.insert(0, format!("n{}", 1 + r.below(2)));
+                qs.push(["s:@7a7a", "x:#9", "sa:#0", "x:@7a7a"][r.below(4)].to_string());
+            }
+            let route = match r.below(10) {
+                0 => "dbexec",
+                1 => "adbexecmut",
+                _ => "dbexecmut",
+            };
+            let cred = if route.starts_with('a') { "t1" } else { "t2" };
+            ops.push(format!("req {route} {cred} {} {} {}", h(user), h("db"), qs.join(",")));
+            if r.chance(1, 4) {
+                ops.push(format!("req dbaudit t2 {} {}", h(user), h("db")));
+            }
+            if r.chance(1, 5) {
+                ops.push(format!("req dbexec t2 {} {} c", h(user), h("db")));
+            }
+        }
+        ops.push(format!("req dbaudit t2 {} {}", h(user), h("db")));
+    }
+    ops
+}
